@@ -56,6 +56,12 @@ def median3 (a b c : F) : F :=
   else
     if le a c then a else if le b c then c else b
 
+/-- `0.0 ≤ s` -/
+def isNonneg (s : F) : Bool :=
+  match (ofInt 0 : Option F) with
+  | some z => le z s
+  | none => false
+
 /-- `x` is finite: not NaN and `|x| ≤ maxFinite` -/
 def isFinite (x : F) : Bool := !isNaN x && le (abs x) maxFinite
 
@@ -71,47 +77,55 @@ def asInt? (x : F) : Option Int :=
 end FloatOps
 
 open FloatOps in
-/-- What the proofs use about the carrier.  For binary64 these are *trusted* (listed in the evidence,
-re-tested by the correspondence run on every double it draws); for `Rat` they are proved below. -/
+/-- What the proofs use about the carrier — nothing else.  For binary64 these are *trusted* (listed in
+the evidence); for `Rat` they are proved in `FrappyProofs/Lemmas/RatLawful.lean`. -/
 class LawfulFloatOps (F : Type) [FloatOps F] : Prop where
   same_iff : ∀ x y : F, same x y = true ↔ x = y
   /-- a comparison that holds has no NaN operand -/
   le_notNaN : ∀ x y : F, le x y = true → isNaN x = false ∧ isNaN y = false
-  lt_notNaN : ∀ x y : F, lt x y = true → isNaN x = false ∧ isNaN y = false
   le_refl : ∀ x : F, isNaN x = false → le x x = true
   le_total : ∀ x y : F, isNaN x = false → isNaN y = false → le x y = true ∨ le y x = true
   le_trans : ∀ x y z : F, le x y = true → le y z = true → le x z = true
+  /-- `<` is the negation of `≥` away from NaN -/
   lt_iff : ∀ x y : F, isNaN x = false → isNaN y = false → (lt x y = true ↔ le y x = false)
-  feq_refl : ∀ x : F, isNaN x = false → feq x x = true
   maxFinite_notNaN : isNaN (maxFinite : F) = false
   neg_maxFinite_notNaN : isNaN (neg (maxFinite : F)) = false
   neg_max_le_max : le (neg (maxFinite : F)) maxFinite = true
-  /-- small integers convert (`True + 0.0`) -/
-  ofInt_small : ∀ i : Int, -1 ≤ i → i ≤ 1 → ∃ y : F, ofInt i = some y
-  ofInt_finite : ∀ (i : Int) (y : F), ofInt i = some y → isFinite y = true
+  /-- `x + 0.0` does not change what `x` rounds to or is equal to -/
+  round_addZero : ∀ x : F, round (addZero x) = round x
+  feq_addZero : ∀ x y : F, feq y (addZero x) = feq y x
+  /-- `x + 0.0` is idempotent and leaves ±max and the (non-zero or `+0.0`) products `k * scale` alone -/
+  addZero_idem : ∀ x : F, addZero (addZero x) = addZero x
+  addZero_ofInt : ∀ (i : Int) (y : F), ofInt i = some y → addZero y = y
+  addZero_maxFinite : addZero (maxFinite : F) = maxFinite
+  addZero_neg_maxFinite : addZero (neg (maxFinite : F)) = neg maxFinite
+  addZero_ofGrid : ∀ (k : Int) (y s : F), ofInt k = some y → (∃ z : F, ofInt 0 = some z ∧ lt z s = true) →
+    addZero (mul y s) = mul y s
+  /-- the tolerance band: `a - p ≤ a` and `b ≤ b + p` for `p ≥ 0`; `|x| ≥ 0`; no NaN from finite products -/
+  abs_nonneg : ∀ x : F, isNaN x = false → isNonneg (abs x) = true
+  mul_notNaN : ∀ x y : F, le (neg maxFinite) x = true → le x maxFinite = true → isFinite y = true → isNaN (mul x y) = false
+  sub_le : ∀ a x p : F, isFinite a = true → le a x = true → isNonneg p = true → le (sub a p) x = true
+  le_add : ∀ x b p : F, isFinite b = true → le x b = true → isNonneg p = true → le x (add b p) = true
+  /-- integers within the internal limit `±UNLIMITED` convert to float -/
+  ofInt_isSome : ∀ i : Int, -18446744073709551616 ≤ i → i ≤ 18446744073709551616 → ∃ y : F, ofInt i = some y
+  /-- int → float conversion is monotone -/
   ofInt_mono : ∀ (i j : Int) (x y : F), i ≤ j → ofInt i = some x → ofInt j = some y → le x y = true
   /-- `round` of a float is an integer that converts back (`intval * self.scale` cannot overflow in the conversion) -/
   round_ofInt : ∀ (x : F) (k : Int), round x = some k → ∃ y : F, ofInt k = some y
   round_mono : ∀ (x y : F) (i j : Int), le x y = true → round x = some i → round y = some j → i ≤ j
   /-- for an integral `x`, `int(x)` and `round(x)` agree -/
   trunc_of_integral : ∀ (x y : F) (k : Int), round x = some k → ofInt k = some y → feq y x = true → trunc x = some k
-  /-- `round` is defined exactly on the finite values -/
-  round_isSome : ∀ x : F, (round x).isSome = isFinite x
-  trunc_isSome : ∀ x : F, (trunc x).isSome = (round x).isSome
-  /-- division by a positive finite scale is monotone (grid index) -/
+  /-- division by / multiplication with a positive finite scale is monotone (grid index, grid value) -/
   div_mono : ∀ x y s : F, le x y = true → isFinite s = true → (∃ z : F, ofInt 0 = some z ∧ lt z s = true) →
-    isNaN (div x s) = false → isNaN (div y s) = false → le (div x s) (div y s) = true
-  /-- multiplication by a positive finite scale is monotone (grid value) -/
+    le (div x s) (div y s) = true
   mul_mono : ∀ x y s : F, le x y = true → isFinite s = true → (∃ z : F, ofInt 0 = some z ∧ lt z s = true) →
-    isFinite x = true → isFinite y = true → le (mul x s) (mul y s) = true
-  mul_comm : ∀ x y : F, mul x y = mul y x
+    le (mul x s) (mul y s) = true
 
 /-! ## The exact carrier: `Rat` (no NaN, no infinities, no rounding of `+ - * /`) -/
 
 namespace RatCarrier
 
-/-- round half up — any rounding to a nearest integer satisfies the laws; the carrier is exact, so the
-tie rule is not observable in them -/
+/-- round half up — the carrier is exact, so the tie rule is not observable in the laws -/
 def round (x : Rat) : Int := (x + 1/2).floor
 
 def trunc (x : Rat) : Int := if 0 ≤ x then x.floor else -((-x).floor)
@@ -121,8 +135,7 @@ def big : Rat := 179769313486231570000
 
 end RatCarrier
 
-/-- `Rat` as a (bounded) float carrier.  Values beyond `±big` play the role of ±inf: they exist as
-results of arithmetic, but `round`/`trunc`/`ofInt` refuse them. -/
+/-- `Rat` as a float carrier: exact arithmetic, no NaN; values beyond `±big` are "not finite" -/
 instance : FloatOps Rat where
   lt x y := decide (x < y)
   le x y := decide (x ≤ y)
@@ -137,8 +150,8 @@ instance : FloatOps Rat where
   addZero x := x
   isNaN _ := false
   maxFinite := RatCarrier.big
-  ofInt i := if (-RatCarrier.big ≤ (i : Rat) ∧ (i : Rat) ≤ RatCarrier.big) then some (i : Rat) else none
-  round x := if (-RatCarrier.big ≤ x ∧ x ≤ RatCarrier.big) then some (RatCarrier.round x) else none
-  trunc x := if (-RatCarrier.big ≤ x ∧ x ≤ RatCarrier.big) then some (RatCarrier.trunc x) else none
+  ofInt i := some (i : Rat)
+  round x := some (RatCarrier.round x)
+  trunc x := some (RatCarrier.trunc x)
 
 end Frappy
